@@ -111,3 +111,16 @@ func (timeoutError) Temporary() bool { return true }
 func dialErr(a net.Addr, e syscall.Errno) error {
 	return &net.OpError{Op: "dial", Net: "tcp", Addr: a, Err: os.NewSyscallError("connect", e)}
 }
+
+// FileShapes are the ways (*net.TCPConn).File can fail.
+var FileShapes = []Shape{
+	{Name: "EMFILE", Make: func(c *Conn, op string) Fault {
+		return Fault{Kind: "err", Name: "file/EMFILE", Err: &net.OpError{Op: "file", Net: "tcp", Source: c.laddr, Addr: c.raddr, Err: os.NewSyscallError("dup", syscall.EMFILE)}}
+	}},
+	{Name: "ENFILE", Make: func(c *Conn, op string) Fault {
+		return Fault{Kind: "err", Name: "file/ENFILE", Err: &net.OpError{Op: "file", Net: "tcp", Source: c.laddr, Addr: c.raddr, Err: os.NewSyscallError("dup", syscall.ENFILE)}}
+	}},
+	{Name: "closed", Make: func(c *Conn, op string) Fault {
+		return Fault{Kind: "err", Name: "file/closed", Err: &net.OpError{Op: "file", Net: "tcp", Source: c.laddr, Addr: c.raddr, Err: net.ErrClosed}}
+	}},
+}
